@@ -40,7 +40,5 @@ pub mod layout {
 //@include air/layouts/starknet_with_keccak_mid.rs
 //@iffeature mid_dynamic
 //@include air/layouts/dynamic_mid.rs
-//@iffeature asserts_dynamic
-//@include air/layouts/dynamic_asserts.rs
 } // mod layout
 } // mod swiftness_air
